@@ -274,6 +274,23 @@ func c04Scenario(name, store string, bound int) schedx.Scenario {
 				}
 			}
 			fmt.Fprintf(&obs, "authenticated=%d", authenticatedSessions(w))
+			// afterwards (sequentially): once a callback has completed the login, a replay of it must not reach the
+			// token endpoint again, whatever the race left behind in the store
+			for _, t := range ths {
+				success := !t.Res.OK && world.IsRedirect(t.Res.HTTPStatus) && t.Res.Location != "" && !strings.HasPrefix(t.Res.Location, "https://idp.test")
+				if !success {
+					continue
+				}
+				n0 := len(w.IdP.TokenReqs)
+				w.Env = &world.Env{}
+				w.Do(world.Req{Path: t.Path, Cookie: t.SID}, world.Plan{})
+				if n := len(w.IdP.TokenReqs) - n0; n > 0 {
+					viols = append(viols, schedx.Violation{Signature: "second-exchange-after-successful-login replay-after-race scenario=" + name,
+						Message: fmt.Sprintf("after the threads had finished (one of them completed the login), a replay of the callback sent %d more token request(s): the login state outlived the successful exchange", n)})
+				}
+				fmt.Fprintf(&obs, " replay-exchanges=%d", len(w.IdP.TokenReqs)-n0)
+				break
+			}
 			return obs.String(), viols
 		}}
 	}}
